@@ -827,6 +827,8 @@ META = (META[0] + ' AGG (all / any / none over word classes zero / full / mixed)
 META = (META[0] + " RETARG (helper type argument equals the conversion's return type).", META[1])
 META = (META[0] + ' SIBNAME; COPYMOD (value-returning operators read the object they copy).', META[1])
 
+META = (META[0] + ' ACCTYPE (folds over the words do not accumulate in an int deduced from a literal initial value; controls in fixtures/arith_pos.hpp).', META[1])
+
 
 def run(chk, tier):
     db = D.load("checks")
@@ -844,6 +846,10 @@ def run(chk, tier):
     from ..rules import iters as _ITG
     _ITG.sibname_area(chk, db, ['_bitset/'])      # SIBNAME: to_ulong / to_ullong have one body
     _ITG.copymod_area(chk, db, ['_bitset/'])      # COPYMOD: value-returning operators read the object they copy
+    from ..rules import arith as _AR
+    if _AR.acctype_area(chk, db, ['_bitset/']) < 1:      # ACCTYPE: folds over the words accumulate in the word type, not in int
+        chk.unknown_instance("ACCTYPE", "etl::basic_bitset", "no fold over the words found")
+    _AR.positive_controls(chk, D, ("ACCTYPE",))
     from ..rules import shift as _SH
     _SH.check(chk, db, ["_bit/", "_bitset/"], floor=20)      # SHIFT: shift counts stay below the promoted operand width
     strbit_rule(chk, db)
